@@ -14,6 +14,7 @@ package modhash
 //@   safety [C13]
 //
 //@ func (*ModHash).Select
+//@   perreturn
 //@   requires mhInv(m) && msg != nil
 //@   ensures [C13] (len(m.endpoints) == 0) == (result1 != nil)
 //@   ensures [C14] (len(m.endpoints) > 0 && len(m.staticWeightRouterCache) == 0) ==> result0 == m.endpoints[msgHash(msg) % len(m.endpoints)]
